@@ -14,6 +14,11 @@
      P <q> <p,p,...>          query q with a given (possibly stale) chunk list: pin it
      U <q>                    query q reads its files and drops its pin guard
      O                        observe
+     DE <p@ts_ns,...>         entries appended to pending-deletions.json from outside
+     CF <tgt> <src,...>       complete_compaction failed (nothing swapped, nothing scheduled)
+     GA                       the cycle ended with an error before its GC part (failed compaction)
+     GFX / GDX <p> / GPX / GX as GF / GD / GP / G, but the retention pass fails at its first
+                              delete_chunk: the cycle ends after the GC part, nothing is persisted
    Output: one token per op separated by ';', then "#K=<0|1>" (1 = the history is in the known
    class pin-toctou: some pin was taken on a path already selected by a running GC pass).
      C      -> 0 | 1
@@ -61,6 +66,11 @@ let run_line (line : string) : string =
         (paths_sorted (List.map fst !s.cat)) (paths_sorted !s.objs) (entries_sorted t0 !s.disk) in
     let finish () = if !is_open then begin s := drv_finish c !s; is_open := false end in
     let begin_cycle () = finish (); s := drv_begin c !s; is_open := true in
+    let finish_x () = if !is_open then begin s := drv_finish_x c !s; is_open := false end in
+    let begin_cycle_x () = finish (); s := drv_begin_x c !s; is_open := !s.gc_active in
+    let entries (x : string) : (path * z) list =
+      List.map (fun e -> match String.split_on_char '@' e with
+        | [p; t] -> (n_of_string p, z_of_string t) | _ -> failwith "bad DE") (split_on ',' x) in
     let pin q = let x = QPin q in (if pin_in_window !s x then known := true); st x in
     let outs = List.map (fun tok ->
       match split_on ' ' (String.trim tok) with
@@ -72,6 +82,18 @@ let run_line (line : string) : string =
           let ok = amem (fun a b -> a = b) (n_of_string tgt) (cat_remove srcs !s.cat) in
           ignore before;
           st (Swap (srcs, n_of_string tgt)); if ok then "0" else "1"
+      | ["DE"; x] -> st (DiskEdit (entries x)); "-"
+      | "CF" :: tgt :: rest ->
+          let srcs = match rest with [] -> [] | [x] -> plist x | _ -> failwith "bad CF" in
+          st (SwapFail (srcs, n_of_string tgt)); "1"
+      | ["GA"] -> finish (); "-"
+      | ["GFX"] -> begin_cycle_x (); "-"
+      | ["GDX"; p] ->
+          let p = n_of_string p in
+          if !is_open && !s.gc_active && memN p !s.gcsel then begin
+            s := drv_delete_x c !s p; is_open := !s.gc_active; "d" end else "skip"
+      | ["GPX"] -> if !is_open then begin finish_x (); observe () end else "-"
+      | ["GX"] -> begin_cycle_x (); finish_x (); observe ()
       | ["GF"] -> begin_cycle (); "-"
       | ["GD"; p] ->
           let p = n_of_string p in
